@@ -23,6 +23,7 @@ import Statrs.Gen.D_bernoulli
 import Statrs.Gen.D_binomial
 import Statrs.Gen.D_discrete_uniform
 import Statrs.Gen.D_geometric
+import Statrs.Gen.D_hypergeometric
 namespace Statrs.Props.C04
 open Statrs Statrs.Gen
 
@@ -69,15 +70,29 @@ theorem weibull_guard_inf (d : Weibull α) (x : α) (h0 : ¬ x < (0.0 : α))
 theorem triangular_ln_pdf_def (d : Triangular α) (x : α) :
     Triangular.ln_pdf d x = RFun.ln (Triangular.pdf d x) := rfl
 
-/-- Triangular: off both linear pieces `pdf` is the literal `0.0` and `ln_pdf = ln 0.0`
-    (`-inf` for IEEE floats) -/
+/-- Triangular: off the mode and off both linear pieces (the three guards exactly as the model
+    writes them since the `x == c` branch was added) `pdf` is the literal `0.0` and
+    `ln_pdf = ln 0.0` (`-inf` for IEEE floats) -/
 theorem triangular_guard (d : Triangular α) (x : α)
-    (h1 : ¬ (d.f_min ≤ x ∧ x ≤ d.f_mode)) (h2 : ¬ (d.f_mode < x ∧ x ≤ d.f_max)) :
+    (h0 : ¬ ((x == d.f_mode) = true))
+    (h1 : ¬ (d.f_min ≤ x ∧ x < d.f_mode)) (h2 : ¬ (d.f_mode < x ∧ x ≤ d.f_max)) :
     Triangular.ln_pdf d x = RFun.ln (0.0 : α) ∧ Triangular.pdf d x = (0.0 : α) := by
   have hp : Triangular.pdf d x = (0.0 : α) := by
     unfold Triangular.pdf
     simp only []
-    rw [if_neg h1, if_neg h2]
+    rw [if_neg h0, if_neg h1, if_neg h2]
+  exact ⟨by rw [triangular_ln_pdf_def, hp], hp⟩
+
+/-- Triangular: at the mode (`x == mode`) `pdf` is `2.0/(max-min)` and `ln_pdf` is its `ln` — on
+    every carrier, also when `mode = min` or `mode = max`; no quotient with `mode-min` or `max-mode`
+    in the denominator is evaluated (before the fix this point evaluated `0/0` when `mode = min`) -/
+theorem triangular_at_mode (d : Triangular α) (x : α) (h : (x == d.f_mode) = true) :
+    Triangular.ln_pdf d x = RFun.ln ((2.0 : α) / (d.f_max - d.f_min)) ∧
+      Triangular.pdf d x = (2.0 : α) / (d.f_max - d.f_min) := by
+  have hp : Triangular.pdf d x = (2.0 : α) / (d.f_max - d.f_min) := by
+    unfold Triangular.pdf
+    simp only []
+    rw [if_pos h]
   exact ⟨by rw [triangular_ln_pdf_def, hp], hp⟩
 
 /-- Laplace: `ln_pdf` is by definition `ln` of `pdf` (support is the whole line: no guard) -/
@@ -161,6 +176,14 @@ theorem discrete_uniform_guard (d : DiscreteUniform) (x : Int)
 theorem geometric_guard (d : Geometric α) (x : Int) (h : x = 0) :
     Geometric.ln_pmf d x = RFun.negInf ∧ Geometric.pmf d x = (0.0 : α) := by
   unfold Geometric.ln_pmf Geometric.pmf
+  exact ⟨if_pos h, if_pos h⟩
+
+/-- Hypergeometric: `k > draws` (above the support) gives `ln_pmf = -inf` and `pmf = 0`.  The guard
+    `if x > self.draws { NEG_INFINITY }` was added to `ln_pmf` by the fix (it used to evaluate the
+    unsigned `draws - x`, which underflows there); `pmf` already had it. -/
+theorem hypergeometric_guard_above [SF α] (d : Hypergeometric) (x : Int) (h : d.f_draws < x) :
+    Hypergeometric.ln_pmf (α := α) d x = RFun.negInf ∧ Hypergeometric.pmf (α := α) d x = (0.0 : α) := by
+  unfold Hypergeometric.ln_pmf Hypergeometric.pmf
   exact ⟨if_pos h, if_pos h⟩
 
 /-- Binomial (the engine of Bernoulli): `k > n` gives `ln_pmf = -inf` and `pmf = 0` -/
